@@ -98,7 +98,13 @@ def size_scenario(i, sizes, mode, rnd, inkind="pty"):
     elif mode == "released":
         script += [P.DO("go-send", msg=P.B("exec", pause=True)), P.W("pause:exec:0")]
         label = "exec:0"
-    for (w, h) in sizes[1:]:
+    if mode == "revisit":
+        # A at start; B with a signal; C without one, learnt through the WindowSize command; back to B with a signal
+        (wb, hb), (wc, hc) = sizes[1], sizes[2]
+        script += [P.DO("winsize", w=wb, h=hb), P.DO("sleep", us=40000), P.W("idle"),
+                   P.DO("winsize", w=wc, h=hc, silent=True), P.DO("send", msg=P.B("windowsize")), P.DO("sleep", us=40000), P.W("idle"),
+                   P.DO("winsize", w=wb, h=hb), P.DO("sleep", us=40000), P.W("idle")]
+    for (w, h) in ([] if mode == "revisit" else sizes[1:]):
         script += [P.DO("winsize", w=w, h=h), P.DO("sleep", us=30000)]
         if mode in ("idle", "command"):
             script.append(P.W("idle"))
@@ -139,6 +145,9 @@ def gen(tier, rnd):
                     sizes.append(s)
             # the terminal is the output; the input is the same terminal, nothing, or a pipe
             add(size_scenario(0, sizes, mode, rnd, inkind=["pty", "ptyout", "ptyout+pipe", "pty"][len(scs) % 4]))
+        a, b, c = [(rnd.randint(20, 120), rnd.randint(5, 40)) for _ in range(3)]
+        if len({a, b, c}) == 3:
+            add(size_scenario(0, [a, b, c, b], "revisit", rnd))
     return scs, metas
 
 
